@@ -1944,6 +1944,12 @@ class BaseInterpreter(Generic[TContext, TEvent]):
                 transition.source.id,
                 exc_info=True,
             )
+            # 🧹 States the failed transition had already entered are about to
+            #    vanish from the configuration: cancel the timers and services
+            #    their entry started, or a state that is not active keeps a
+            #    running service and a pending `after` event.
+            for node in self._active_state_nodes - snapshot_before:
+                await self._cancel_state_tasks(node)
             self._active_state_nodes.clear()
             self._active_state_nodes.update(snapshot_before)
 
